@@ -54,6 +54,9 @@ ASSUMPTIONS = [
     'ISO Packet_Status_Flag is the Core-spec 2-bit field (bits 14-15 of the SDU-length word)',
     'Command Complete with status != SUCCESS carries the status byte only',
     'values are sampled (boundary-biased); only the class registry is enumerated exhaustively',
+    'late registration (Hypothesis): a vendor command with typed return parameters and an event class are registered with the public '
+    'decorators AFTER 0..4 packets with their opcode / event code were parsed as generic packets (what importing a vendor module '
+    'late does); afterwards command, event and Command Complete must round-trip as the registered classes. '
     'the vendor modules shipped in bumble/vendor are part of "every packet Bumble can build": they register '
     'classes and a vendor-event factory by the same decorators, at import time',
     'LE_Get_Vendor_Capabilities return parameters are well-formed in the released layouts (9, 15, 16, 21, 25 '
@@ -1054,6 +1057,145 @@ def run_full_groups(ctx, n):
     return classes
 
 
+# --- classes registered AFTER packets with their code were already parsed (a vendor module imported late, an
+# application declaring its own vendor command/event with the public decorators) ---
+def late_strategy():
+    return st.fixed_dictionaries(
+        {
+            'kind': st.just('late'),
+            'ocf': st.integers(0x300, 0x3FF),       # vendor OGF 0x3F, OCFs none of the shipped vendor modules use
+            'event_code': st.sampled_from([0xE1, 0xE7, 0xF3, 0xFD]),  # unassigned event codes
+            'early': st.lists(st.sampled_from(['cc', 'cc_error', 'command', 'status', 'event']), max_size=4),
+            'status': st.sampled_from([0, 0, 1, 0x0C, 0xFF]),
+            'a': st.sampled_from([0, 1, 0xFFFF, 0x8000]) | st.integers(0, 0xFFFF),
+            'b': st.sampled_from([0, 0xFFFFFFFF, 0x80000000]) | st.integers(0, 0xFFFFFFFF),
+            'c': st.sampled_from([-128, -1, 0, 127]) | st.integers(-128, 127),
+            'tail': st.binary(max_size=12),
+        }
+    )
+
+
+def run_late_case(ctx, case) -> None:
+    op = hci.hci_vendor_command_op_code(case['ocf'])
+    code = case['event_code']
+    if op in hci.HCI_Command.command_classes or code in hci.HCI_Event.event_classes:
+        raise HarnessError(f'late registration: opcode {op:#06x} / event code {code:#04x} is already registered')
+    plain = {k: (list(v) if isinstance(v, list) else v) for k, v in case.items()}
+    labels = {'late_registration'}
+    saved_names = (dict(hci.HCI_Command.command_names), dict(hci.HCI_Event.event_names))
+
+    def fail(sig, what):
+        ctx.fail(sig, what, plain)
+
+    # (a Command Complete with an error status carries the status only - as in the main family - so the typed one is a success)
+    rp_body = b'\x00' + struct.pack('<HIb', case['a'], case['b'], case['c'])
+    cc_raw = bytes([0x04, 0x0E, 3 + len(rp_body), 1]) + op.to_bytes(2, 'little') + rp_body
+    cmd_raw = bytes([0x01]) + op.to_bytes(2, 'little') + bytes([3 + len(case['tail'])]) + struct.pack('<BH', case['a'] & 0xFF, case['a']) + case['tail']
+    evt_raw = bytes([0x04, code, 5 + len(case['tail'])]) + struct.pack('<BI', case['status'], case['b']) + case['tail']
+    try:
+        # 1. before the registration: carried as generic packets, bytes preserved
+        for what in case['early']:
+            labels.add(f'late_early:{what}')
+            if what in ('cc', 'cc_error'):
+                raw = cc_raw if what == 'cc' else bytes([0x04, 0x0E, 4, 1]) + op.to_bytes(2, 'little') + b'\x01'
+            elif what == 'command':
+                raw = cmd_raw
+            elif what == 'event':
+                raw = evt_raw
+            else:
+                raw = bytes([0x04, 0x0F, 4, case['status'], 1]) + op.to_bytes(2, 'little')
+            try:
+                got = bytes(hci.HCI_Packet.from_bytes(raw))
+            except Exception as e:  # noqa: BLE001
+                fail(f'late/early_raises/{what}/{type(e).__name__}', f'{raw.hex()} with a not yet registered code raised {e!r}')
+                return
+            if got != raw:
+                fail(f'late/early_bytes/{what}', f'{raw.hex()} with a not yet registered code re-serialises to {got.hex()}')
+                return
+
+        # 2. the registration, with the public decorators (what bumble/vendor/* do at import time)
+        cname = f'HCI_VERIF_LATE_{op:04X}_COMMAND'
+        ename = f'HCI_VERIF_LATE_{code:02X}_EVENT'
+        hci.HCI_Command.register_commands({cname: op})
+        hci.HCI_Event.register_events({ename: code})
+
+        @dataclasses.dataclass
+        class RP(hci.HCI_StatusReturnParameters):
+            a: int = hci.field(metadata=hci.metadata(2))
+            b: int = hci.field(metadata=hci.metadata(4))
+            c: int = hci.field(metadata=hci.metadata(-1))
+
+        @hci.HCI_SyncCommand.sync_command(RP)
+        @dataclasses.dataclass
+        class Cmd(hci.HCI_SyncCommand[RP]):
+            name = cname
+            op_code = op
+            x: int = dataclasses.field(metadata=hci.metadata(1))
+            y: int = dataclasses.field(metadata=hci.metadata(2))
+            tail: bytes = dataclasses.field(metadata=hci.metadata('*'))
+
+        @hci.HCI_Event.event
+        @dataclasses.dataclass
+        class Evt(hci.HCI_Event):
+            name = ename
+            event_code = code
+            status: int = dataclasses.field(metadata=hci.metadata(1))
+            b: int = dataclasses.field(metadata=hci.metadata(4))
+            tail: bytes = dataclasses.field(metadata=hci.metadata('*'))
+
+        # 3. from now on: fields -> bytes -> packet of the same kind with the same fields; bytes -> same bytes
+        units = [
+            ('command', Cmd, cmd_raw, lambda: Cmd(x=case['a'] & 0xFF, y=case['a'], tail=case['tail']),
+             lambda pkt: {'x': pkt.x, 'y': pkt.y, 'tail': bytes(pkt.tail)}, {'x': case['a'] & 0xFF, 'y': case['a'], 'tail': case['tail']}),
+            ('event', Evt, evt_raw, lambda: Evt(status=case['status'], b=case['b'], tail=case['tail']),
+             lambda pkt: {'status': int(pkt.status), 'b': pkt.b, 'tail': bytes(pkt.tail)},
+             {'status': case['status'], 'b': case['b'], 'tail': case['tail']}),
+            ('command_complete', hci.HCI_Command_Complete_Event, cc_raw,
+             lambda: hci.HCI_Command_Complete_Event(num_hci_command_packets=1, command_opcode=op,
+                                                    return_parameters=RP(status=hci.HCI_ErrorCode(0), a=case['a'], b=case['b'], c=case['c'])),
+             lambda pkt: {'rp': type(pkt.return_parameters).__name__, 'status': int(getattr(pkt.return_parameters, 'status', -1)),
+                          'a': getattr(pkt.return_parameters, 'a', None), 'b': getattr(pkt.return_parameters, 'b', None),
+                          'c': getattr(pkt.return_parameters, 'c', None)},
+             {'rp': 'RP', 'status': 0, 'a': case['a'], 'b': case['b'], 'c': case['c']}),
+        ]
+        for what, cls, raw, build, view, want in units:
+            try:
+                built = bytes(build())
+            except Exception as e:  # noqa: BLE001
+                fail(f'late/encode_raises/{what}/{type(e).__name__}', f'building the late-registered {what} raised {e!r}')
+                continue
+            if built != raw:
+                fail(f'late/encode/{what}', f'late-registered {what} built from fields serialises to {built.hex()}, expected {raw.hex()}')
+                continue
+            try:
+                parsed = hci.HCI_Packet.from_bytes(raw)
+                got = view(parsed) if type(parsed) is cls else None
+                again = bytes(parsed)
+            except Exception as e:  # noqa: BLE001
+                fail(f'late/decode_raises/{what}/{type(e).__name__}', f'parsing {raw.hex()} after its class was registered raised {e!r}')
+                continue
+            if type(parsed) is not cls:
+                fail(f'late/decode_class/{what}', f'{raw.hex()} parsed as {type(parsed).__name__} after {cls.__name__} was registered'
+                     f' ({len(case["early"])} packet(s) with the code parsed before the registration)')
+            elif got != want:
+                fail(f'late/decode_fields/{what}', f'{raw.hex()} parsed after the registration gives {got}, expected {want}'
+                     f' ({len(case["early"])} packet(s) with the code parsed before the registration)')
+            elif again != raw:
+                fail(f'late/reencode/{what}', f'{raw.hex()} parsed after the registration re-serialises to {again.hex()}')
+    finally:
+        hci.HCI_Command.command_classes.pop(op, None)
+        hci.HCI_Event.event_classes.pop(code, None)
+        hci.HCI_Command.command_names.clear()
+        hci.HCI_Command.command_names.update(saved_names[0])
+        hci.HCI_Event.event_names.clear()
+        hci.HCI_Event.event_names.update(saved_names[1])
+    ctx.case(('late', plain), True, labels, sample={'late': {k: (v.hex() if isinstance(v, bytes) else v) for k, v in plain.items()}})
+
+
+def run_late(ctx, n) -> None:
+    ctx.hyp('late_registration', lambda c: run_late_case(ctx, c), late_strategy(), max_examples=n)
+
+
 def run(ctx) -> None:
     per_class = ctx.n(60, 1500)
     c = run_registry(ctx, CMD, hci.HCI_Command.command_classes, per_class)
@@ -1069,6 +1211,7 @@ def run(ctx) -> None:
     g = run_full_groups(ctx, ctx.n(6, 400))
     ctx.extra['sweeps'] = {'unknown_event_cases': n_evt, 'unknown_subevent_cases': n_sub, 'unknown_opcode_cases': n_op}
     ctx.extra['classes_with_repeated_groups'] = g
+    run_late(ctx, ctx.n(150, 8000))
     run_fuzz(ctx)
     ctx.extra['classes_registered'] = {
         'commands': len(hci.HCI_Command.command_classes),
@@ -1092,6 +1235,8 @@ def run(ctx) -> None:
                   'opaque_ref:CodingFormat', 'opaque_ref:random_address', 'full_group_cc'):
         ctx.floor(label, 3)
     ctx.floor('vendor_declined_empty', 1)
+    for label in ('late_registration', 'late_early:cc', 'late_early:command', 'late_early:event', 'late_early:status'):
+        ctx.floor(label, 5)
     ctx.floor('plain_int_enum', 500)
     ctx.floor('full_group', 60)
     ctx.floor('full_group_ge32', 15)
@@ -1107,6 +1252,9 @@ def run(ctx) -> None:
 # ---------------------------------------------------------------------------
 def replay(ctx, case) -> None:
     """Re-check one packet given as bytes: reference-decode it, then run all clauses."""
+    if case.get('kind') == 'late':
+        run_late_case(ctx, case)
+        return
     if case.get('kind') == 'fuzz':
         from vlib.fuzz import FuzzViolation
 
